@@ -116,7 +116,7 @@ func main() {
 	for _, id := range ids {
 		t1 := time.Now()
 		pi := properties[id]
-		c := &Ctx{P: p, Prop: id, Tier: *tier, Explain: pi.explain, Assume: append(append([]string{}, commonAssumptions...), pi.assume...)}
+		c := &Ctx{P: p, Prop: id, Tier: *tier, FixDir: filepath.Join(vdir, "checker", "fixture"), Explain: pi.explain, Assume: append(append([]string{}, commonAssumptions...), pi.assume...)}
 		pi.run(c)
 		goarch := "host"
 		if *tier == "thorough" && needs386[id] {
